@@ -115,7 +115,6 @@ func HarnessC03RequiredDefs() {
 	verifPermMaps(true)
 	again := run(cont)
 	verifPermMaps(false)
-	verifKF("C10-KF-FIRST-ERROR-ORDER", !cont && !ok1 && !ok2)
 	verifAssert(verifIff(again.valid, base.valid), "verdict-independent-of-map-order")
 	verifAssert(verifSameSet(again.errs, base.errs), "error-set-independent-of-map-order")
 	// C10: every error reported when stopping early is also reported with continue-on-errors
@@ -457,7 +456,7 @@ func HarnessC09Definitions() {
 	sw := &spec.Swagger{}
 	sw.Definitions = spec.Definitions{defName: tree}
 	s := newSpecHarnessValidator(sw, map[string]map[string]*spec.Operation{}, true, true)
-	verifKF("C09-KF-VISITED-SUFFIX", strings.HasSuffix(defName, propName) || strings.HasSuffix("definitions."+defName, "."+propName))
+	verifKF("C09-KF-VISITED-SUFFIX", strings.HasSuffix("definitions."+defName, "."+propName)) // whole segments: the definition is called like the member
 	d := &defaultValidator{SpecValidator: s, schemaOptions: s.schemaOptions}
 	gotD := outcomeOfResult(d.Validate())
 	ex := &exampleValidator{SpecValidator: s, schemaOptions: s.schemaOptions}
@@ -545,7 +544,7 @@ func HarnessC09VisitedKernel() {
 	name := verifBytesStr(3)
 	verifAssume(len(def) >= 1 && len(name) >= 1)
 	verifAssume(!strings.Contains(def, ".") && !strings.Contains(name, "."))
-	verifKF("C09-KF-VISITED-SUFFIX", strings.HasSuffix("definitions."+def, "."+name) || strings.HasSuffix(def, name))
+	verifKF("C09-KF-VISITED-SUFFIX", strings.HasSuffix("definitions."+def, "."+name))
 	path := "definitions." + def + "." + name
 	visited := map[string]struct{}{}
 	visited["definitions."+def] = struct{}{}
